@@ -1,5 +1,6 @@
 import Kopf.Drv.Json
 import Kopf.Model.C15_Match
+import Kopf.Model.C15_Selector
 open Lean
 namespace Kopf.Drv.C15
 open Kopf.C15
@@ -135,8 +136,30 @@ def obj? (j : Json) : Option Obj := do
          blocked := ← jBool? (← jField? j "blocked"), noDelays := ← jBool? (← jField? j "nodelays"),
          carried := ← jBool? (← jField? j "carried") }
 
+def resource? (j : Json) : Option Resource := do
+  some { group := ← jStr? (← jField? j "group"), version := ← jStr? (← jField? j "version"),
+         plural := ← jStr? (← jField? j "plural"), kind := ← jOpt? jStr? (← jField? j "kind"),
+         singular := ← jOpt? jStr? (← jField? j "singular"), shortcuts := ← jStrList? (← jField? j "shortcuts"),
+         categories := ← jStrList? (← jField? j "categories"), preferred := ← jBool? (← jField? j "preferred") }
+
+def selector? (j : Json) : Option Selector := do
+  let any ← match ← jField? j "any" with
+    | .null => some none
+    | .str "*" => some (some AnyName.everything)
+    | x => do pure (some (AnyName.name (← jStr? (← jField? x "n"))))
+  let fn ← jOpt? jBool? (← jField? j "fn")
+  some { group := ← jOpt? jStr? (← jField? j "group"), version := ← jOpt? jStr? (← jField? j "version"),
+         kind := ← jOpt? jStr? (← jField? j "kind"), plural := ← jOpt? jStr? (← jField? j "plural"),
+         singular := ← jOpt? jStr? (← jField? j "singular"), shortcut := ← jOpt? jStr? (← jField? j "shortcut"),
+         category := ← jOpt? jStr? (← jField? j "category"), anyName := any, fn := fn.map (fun b _ => b) }
+
 def handle : DrvHandler := fun op args =>
   match op, args with
+  | "C15.selcheck", [sels, ress] => do
+      let sels ← (← jArr? sels).mapM selector?
+      let ress ← (← jArr? ress).mapM resource?
+      some (ok (.arr (sels.map (fun s =>
+        Json.str (String.ofList (ress.map (fun r => if s.check r then '1' else '0'))))).toArray))
   | "C15.grid", [hs, cs] => do
       let hs ← handlers? hs
       let cs ← (← jArr? cs).mapM cause?
